@@ -2,12 +2,7 @@ SPECIFICATION Spec
 INVARIANT Inv
 CHECK_DEADLOCK FALSE
 CONSTANTS
-  MaxIn = 1
-  MaxOut = 1
-  Kinds = {"xof", "xofa"}
-  WithCopy = FALSE
-  Duplex = TRUE
-  ChunkLens <- DuplexChunks
+  MaxBlocks = 1
   PermOp <- SPermOp
   BX <- SBX
   BC <- SBC
